@@ -227,6 +227,66 @@ def rec_small(rec):
     return {k_: rec.get(k_) for k_ in ("result", "exc", "listing", "handles_left")}
 
 
+def layout_sweep(rep):
+    """Every layout of pre-existing files over {out.h5, out.h5.tmp, out-1.h5, out-1.h5.tmp, out-2.h5, out-2.h5.tmp}
+    (64 layouts): the real DataHandler is entered (files created) and closed; directory listing after each of the two
+    phases and byte identity of every pre-existing file vs Model.Files.create / close."""
+    import itertools
+    from tdgl.solver.runner import DataHandler
+    import logging
+    quiet = logging.getLogger("pyt_c15_quiet")
+    quiet.setLevel(logging.CRITICAL)
+    quiet.propagate = False
+    universe = [("out.h5", "Main 0"), ("out.h5.tmp", "Tmp 0"), ("out-1.h5", "Main 1"), ("out-1.h5.tmp", "Tmp 1"),
+                ("out-2.h5", "Main 2"), ("out-2.h5.tmp", "Tmp 2")]
+    layouts = [[u for u, b in zip(universe, bits) if b] for bits in itertools.product((0, 1), repeat=len(universe))]
+    t = ("From Coq Require Import List ZArith.\nImport ListNotations.\nFrom PyTdgl Require Import Model.Files.\n"
+         "Definition code (p : path) : Z := match p with Main n => Z.of_nat (2 * n) | Tmp n => Z.of_nat (2 * n + 1) end.\n"
+         "Definition row (f : list path) : list (list Z) :=\n"
+         "  match create true 10 0 f with\n"
+         "  | Some (m, g) => [[Z.of_nat m]; map code g; map code (close m g)]\n"
+         "  | None => [[(-1)%Z]; []; []]\n  end.\n"
+         "Eval vm_compute in map row " + coq_list(["[" + "; ".join(m for _, m in lay) + "]" for lay in layouts], per_line=4) + ".\n")
+    rc, out = common.run_model("c15_layouts", t)
+    if rc != 0:
+        rep.not_shown("correspondence: Files layout model evaluation failed", {"log": out[-1200:]})
+        return 1
+    res = common.parse_nested(common.eval_block(out))[0]
+    fname = lambda c: (f"out-{c // 2}.h5" if c // 2 else "out.h5") + (".tmp" if c % 2 else "")
+    bad = 0
+    for lay, m in zip(layouts, res):
+        with tempfile.TemporaryDirectory(prefix="pyt_c15l_") as td:
+            pre = {}
+            for name, _ in lay:
+                with open(os.path.join(td, name), "wb") as f:
+                    f.write(b"user data " + name.encode())
+                pre[name] = sha(os.path.join(td, name))
+            case = {"preexisting": sorted(pre)}
+            try:
+                h = DataHandler(output_file=os.path.join(td, "out.h5"), logger=quiet)
+                h.__enter__()
+                opened = sorted(os.listdir(td))
+                chosen = os.path.basename(h.output_path)
+                h.close()
+                closed = sorted(os.listdir(td))
+            except Exception as e:  # noqa: BLE001
+                rep.violation(f"creating / closing the output file raised {type(e).__name__}: {e}"[:160], case)
+                continue
+            if not all(os.path.exists(os.path.join(td, n)) and sha(os.path.join(td, n)) == d for n, d in pre.items()):
+                rep.violation("a pre-existing file was modified or removed while choosing a fresh output name",
+                              {**case, "after": closed})
+            mi = int(m[0][0])
+            want_open, want_closed = sorted(fname(int(c)) for c in m[1]), sorted(fname(int(c)) for c in m[2])
+            if chosen != fname(2 * mi) or opened != want_open or closed != want_closed:
+                bad += 1
+                if bad < 6:
+                    rep.not_shown("correspondence: output name / directory listing differs from Model.Files.create / close",
+                                  {**case, "impl": [chosen, opened, closed], "model": [fname(2 * mi), want_open, want_closed]})
+        rep.count(1)
+    rep.coverage["file_layouts_compared"] = len(layouts)
+    return bad
+
+
 def run(rep: common.Report, tier: str, seed: int, replay=None) -> int:
     rep.use_props(common.check_props("C15"))
     rng = random.Random(seed * 7919 + 15)
@@ -308,6 +368,7 @@ def run(rep: common.Report, tier: str, seed: int, replay=None) -> int:
                 ndis += 1
                 rep.not_shown("correspondence: output file name differs from Model.Files.create",
                               {"preexisting": list(pre), "model": mname, "impl": oname})
+    ndis += layout_sweep(rep)
     rep.coverage.update({"fault_runs": len(cfgs), "exhaustive": True,
                          "bound": f"N={N}; p in 0..N (update), every frame-writer call, 4 inner-write positions; k in {{1,3,N+1}}; "
                                   "both stages; RuntimeError and KeyboardInterrupt; explicit/temporary output; 4 pre-existing layouts",
